@@ -411,3 +411,66 @@ def calls_inside_loop(relpath, qualname, callee, loop_ordinal, prop, clause):
                     function=fi.describe(), model=why)
     return dict(name=name, status="discharged", backend="frame(ast)", time_s=time.time() - t0, property_level=False,
                 reason=f"all {len(calls)} calls of {callee} are inside the loop starting at line {lp.lineno}", function=fi.describe())
+
+
+def writes_only_through(relpath, qualname, allowed_attrs, private_attrs, prop, clause):
+    """Obligation (a composite operation is a history of contracted setters): every attribute store in the function is
+    `<name>.<attr> = ...` with `attr` one of `allowed_attrs` (properties whose setters are under contract); no private
+    attribute in `private_attrs` is stored, deleted or augmented, and neither `setattr`, `delattr`, `__setattr__`,
+    `__dict__` nor `vars()` is used. The class invariant after the function then follows from the setter contracts."""
+    t0 = time.time()
+    name = f"{prop}/{qualname}/{clause}"
+    try:
+        fi = extract.load_module(relpath).function(qualname)
+    except extract.ExtractError as e:
+        return dict(name=name, status="undecided", reason=str(e), property_level=False, backend="frame")
+    problems, stores = [], []
+
+    def store_target(t, ln):
+        if isinstance(t, (ast.Tuple, ast.List)):
+            for e in t.elts:
+                store_target(e, ln)
+        elif isinstance(t, ast.Starred):
+            store_target(t.value, ln)
+        elif isinstance(t, ast.Attribute):
+            if t.attr in allowed_attrs and isinstance(t.value, ast.Name):
+                stores.append((ln, ast.unparse(t)))
+            else:
+                problems.append((ln, f"store to `{ast.unparse(t)}` does not go through a contracted setter {sorted(allowed_attrs)}"))
+        elif isinstance(t, ast.Subscript):
+            base = t.value
+            while isinstance(base, (ast.Subscript, ast.Attribute)):
+                if isinstance(base, ast.Attribute) and (base.attr in private_attrs or base.attr in allowed_attrs):
+                    problems.append((ln, f"element store through `{ast.unparse(base)}`"))
+                    break
+                base = base.value
+
+    for n in ast.walk(fi.node):
+        if isinstance(n, ast.Assign):
+            for t in n.targets:
+                store_target(t, n.lineno)
+        elif isinstance(n, (ast.AugAssign, ast.AnnAssign)):
+            if isinstance(n, ast.AugAssign) and isinstance(n.target, ast.Attribute):
+                problems.append((n.lineno, f"augmented store to `{ast.unparse(n.target)}`"))
+            else:
+                store_target(n.target, n.lineno)
+        elif isinstance(n, ast.Delete):
+            for t in n.targets:
+                if isinstance(t, (ast.Attribute, ast.Subscript)):
+                    problems.append((n.lineno, f"`del {ast.unparse(t)}`"))
+        elif isinstance(n, ast.Call):
+            f = n.func
+            fname = f.id if isinstance(f, ast.Name) else (f.attr if isinstance(f, ast.Attribute) else None)
+            if fname in ("setattr", "delattr", "__setattr__", "__delattr__", "vars"):
+                problems.append((n.lineno, f"call of `{fname}`"))
+        elif isinstance(n, ast.Attribute) and (n.attr == "__dict__" or (n.attr in private_attrs and isinstance(n.ctx, (ast.Store, ast.Del)))):
+            problems.append((n.lineno, f"use of `{ast.unparse(n)}`"))
+    if not stores and not problems:
+        problems.append((fi.node.lineno, "no store through a contracted setter found (vacuous)"))
+    if problems:
+        why = "; ".join(f"line {ln}: {msg}" for ln, msg in problems[:6])
+        return dict(name=name, status="refuted", backend="frame(ast)", time_s=time.time() - t0, reason=why, property_level=False,
+                    function=fi.describe(), model=why)
+    return dict(name=name, status="discharged", backend="frame(ast)", time_s=time.time() - t0, property_level=False,
+                reason=f"{len(stores)} attribute stores, all through contracted setters: {sorted({s for _, s in stores})}",
+                function=fi.describe())
